@@ -97,18 +97,11 @@ C10Clause(i) ==
    ELSE ""
 Clauses(i) == {c \in {IF Tr[i].crash # "" THEN "crash" ELSE "", C11Clause(i), C09Clause(i), C07Clause(i), C10Clause(i)} : c # ""}
 
-(* KF-C07-3: a header that annotate writes or extends may reach beyond byte 4096 of the file (very many holders, or an   *)
-(* existing header far down in the file); the linter reads only the first 4 KiB of a file without snippet marker, so  *)
-(* the tags beyond are not read back although annotate reported success.                                             *)
-KF_C07_BeyondWindow(e) == \E f \in FilesOf(e) : f.post.beyondWindow
 (* KF-C10-4: an already-commented template (name ending in .commented.jinja2) with a truly empty line between its copyright and its licence  *)
 (* block renders a header of two comment blocks; the next run finds the first block only and puts a complete new header in its   *)
 (* place - the old licence block stays below and one more is stacked by every run.                                             *)
 KF_C10_TwoBlocks(e) == e.req.twoBlocks
-KnownFinding(e, c) == IF c \in {"C07.read-back-differs-from-request", "C07.success-reported-but-requested-information-not-declared",
-                               "C09.file-does-not-declare-the-union-of-before-and-request"}
-                         /\ KF_C07_BeyondWindow(e) THEN "KF-C07-3"
-                      ELSE IF c \in {"C10.identical-rerun-changed-the-file", "C10.second-header-block-stacked"} /\ KF_C10_TwoBlocks(e) THEN "KF-C10-4"
+KnownFinding(e, c) == IF c \in {"C10.identical-rerun-changed-the-file", "C10.second-header-block-stacked"} /\ KF_C10_TwoBlocks(e) THEN "KF-C10-4"
                       ELSE ""
 TInit == l = 1
 TNext == /\ l <= Len(Tr)
